@@ -20,6 +20,10 @@ def _prog_layouts(item):
     r = tv.check_il_pair(a[1], b[1], corpus_run.il_subs("READ_STATEMENTS"), corpus_run.il_subs("EXEC_CLASSES"), optab,
                          tv.Opts(unroll=unroll, timeout_ms=timeout_ms))
     d = r.as_dict()
+    if d["verdict"] == "equiv":
+        w = corpus_run.layout_wf(a[1], b[1], optab)
+        if w:
+            d.update(verdict="syntax", detail=w)
     d.update(key=key, c=text)
     if d["verdict"] != "equiv":
         d["il_a"], d["il_b"] = a[1], b[1]
